@@ -8,6 +8,7 @@ import (
 
 	ct "github.com/circlefin/noble-cctp/x/cctp/types"
 
+	"verif/harness/chain"
 	"verif/harness/ref"
 )
 
@@ -23,8 +24,43 @@ var c02ReplayKinds = []string{"verbatim", "other-body", "other-recipient", "othe
 // runC02 drives replay-heavy histories; the exactly-once verdicts come from the engine's
 // outcome oracle (nonce-used => MustFail), the state tap (used set == model), the
 // used-nonce queries over confusable twins and the learned-key write guard.
+// c02RefusedMints: receives whose mint the fiat-token-factory refuses (recipient blacklisted; and every error class
+// injected at the Mint call in turn) consume nothing: the pair is reported unused afterwards, a second message with
+// the same (source domain, nonce) and another recipient is received, and after that the first one is refused for good.
+func c02RefusedMints(rc *RunCtx) {
+	e, err := StdEngine(rc, false, false, func(gs *ct.GenesisState, cfg *chain.Config) {
+		cfg.Blacklisted = [][]byte{AcctBytes(1)}
+	})
+	if err != nil {
+		rc.Cov.Inconclusive("refused mints: " + err.Error())
+		return
+	}
+	e.LightQueries = false
+	nonce := uint64(3_300_000)
+	for k := 0; k < 12; k++ {
+		nonce++
+		first := StdInbound(nonce, 1, big.NewInt(int64(5+k))) // recipient account 1 is blacklisted
+		tx := Tx{Msgs: msgs1(&ct.MsgReceiveMessage{From: Acct(UserIx), Message: first.Bytes(), Attestation: e.Attest(first.Bytes(), k%3)}), Note: "C02 refused mints: mint refused by the token factory"}
+		if k%3 != 0 { // an injected refusal at the Mint call (the classes are cycled), recipient in good standing
+			first = StdInbound(nonce, 2, big.NewInt(int64(5+k)))
+			tx = Tx{Msgs: msgs1(&ct.MsgReceiveMessage{From: Acct(UserIx), Message: first.Bytes(), Attestation: e.Attest(first.Bytes(), k%3)}), Note: "C02 refused mints: injected refusal at the Mint call",
+				Fault: map[int]chain.FaultKind{0: chain.FaultCleanErr}}
+		}
+		r1 := e.Exec(tx)
+		e.queryUsedNonce(&tx, nonceKey{0, nonce})
+		second := StdInbound(nonce, 3, big.NewInt(int64(50+k)))
+		r2 := e.Exec(Tx{Msgs: msgs1(&ct.MsgReceiveMessage{From: Acct(OtherIx), Message: second.Bytes(), Attestation: e.Attest(second.Bytes(), 0)}), Note: "C02 refused mints: another message for the same pair"})
+		again := StdInbound(nonce, 2, big.NewInt(int64(5+k)))
+		r3 := e.Exec(Tx{Msgs: msgs1(&ct.MsgReceiveMessage{From: Acct(UserIx), Message: again.Bytes(), Attestation: e.Attest(again.Bytes(), 0)}), Note: "C02 refused mints: the pair is consumed now"})
+		rc.Cov.Cell("C02_refused_mints", fmt.Sprintf("refused=%s/second=%s/third=%s", okWord(r1.OK), okWord(r2.OK), okWord(r3.OK)))
+	}
+}
+
 func runC02(rc *RunCtx) {
 	r := rc.Rand
+	if rc.Shard == 1%rc.NShards {
+		c02RefusedMints(rc)
+	}
 	nHist := rc.Pick(3, 10)
 	for h := 0; h < nHist; h++ {
 		e, err := StdEngine(rc, h%3 == 2, false, nil)
